@@ -116,10 +116,12 @@ class Session:
                 pool.join()
         for (label, fn), (status, payload, extra) in zip(tasks, outs):
             if status == "ok":
-                def regen(fn=fn):
-                    r = fn()
-                    r = r[0] if isinstance(r, tuple) else r
-                    return r if isinstance(r, list) else [r]
+                def regen(fn=fn, memo={}):
+                    if "r" not in memo:     # one regeneration per task, shared by all of its obligations
+                        r = fn()
+                        r = r[0] if isinstance(r, tuple) else r
+                        memo["r"] = r if isinstance(r, list) else [r]
+                    return memo["r"]
                 self.add([Obligation.from_stub(d, regen) for d in payload])
                 if self.ver is not None and extra:
                     self.ver.functions_under_contract.update(extra["fuc"])
@@ -218,8 +220,20 @@ class Session:
             self.failed(o)
 
     def failed(self, o: Obligation):
-        o.materialise()
         entry = next((k for k in self.known if fnmatch.fnmatch(o.id, k["key"])), None)
+        if entry is not None and entry["region"]:
+            sib = next((x for x in self.obligations if x.id == f"{o.id}/outside:{entry['region'].partition(':')[2]}"), None)
+            if sib is not None and sib.verdict:
+                o.verdict["outside_region"] = sib.verdict["result"]
+                if sib.verdict["result"] == "unsat":
+                    self.note_known(entry, o)
+                    return
+                if sib.verdict["result"] == "sat":
+                    self.report_violation(sib.materialise())   # a violation outside the known region
+                    return
+        if o.kind == "post-outside-region":
+            return   # reported through its parent obligation
+        o.materialise()
         if entry is not None:
             if entry["region"]:
                 # re-pose with the known region excluded: a different violation is still reported
@@ -358,8 +372,9 @@ class Session:
     # ------------------------------------------------------------------ finishing
     def finish(self):
         wall = time.time() - self.t0
-        n = len([o for o in self.obligations if o.expect == "unsat"])
-        discharged = len([o for o in self.obligations if o.expect == "unsat" and o.verdict and o.verdict["result"] == "unsat"])
+        known_obls = [o for o in self.obligations if o.verdict and o.verdict.get("known")]
+        n = len([o for o in self.obligations if o.expect == "unsat" and o not in known_obls])
+        discharged = len([o for o in self.obligations if o.expect == "unsat" and o.verdict and o.verdict["result"] == "unsat" and o not in known_obls])
         covers = [o for o in self.obligations if o.kind == "cover"]
         canaries = [o for o in self.obligations if o.kind == "canary"]
         if n < self.min_obligations:
@@ -402,6 +417,7 @@ class Session:
                             for o in self.obligations],
             bounded_standins=[{k: v for k, v in s.items() if k != "samples"} for s in self.standins],
             known_findings_printed=self.known_printed,
+            obligations_inside_known_finding_regions=[o.id for o in known_obls],
             explanation=self.explanation,
         )
         # generic keys (measured): evaluations = solver queries + stand-in cases
